@@ -950,3 +950,159 @@ def gc_verdict(ctx, w, S, T, rule):
         return True
     ctx.violation(rule, "gc", str(info), loc=w.fn_loc(T.buf_gc))
     return False
+
+
+def real_writers(w, S, ctor_fn=None):
+    """{field of the terminal: functions (other than the constructor) that may change it}.  An assignment that stores
+    back the value the field had before (`let keep = self.f; *self = fresh; self.f = keep`) does not change it; a
+    whole-value replacement counts as a write of every field EXCEPT those restored this way in the same function.
+    Calls contribute what the callee really writes (transitively), not its raw may-write summary."""
+    E = w.E
+    fields = [f["name"] for f in w.facts.struct_fields(S.term_ty)]
+    direct = {}
+    def takes_self(fn):
+        ins = w.facts.fns.get(fn, {}).get("inputs", [])
+        return bool(ins) and (ins[0].get("adt") == S.term_ty or ins[0]["s"].replace("&mut ", "").replace("&", "").strip() == S.term_ty)
+    fns = [fn for fn in w.bodies if fn != ctor_fn and S._impl_of(fn) == S.term_ty and takes_self(fn)]
+    ctor_terms = {}
+    if ctor_fn:
+        from rules import c19 as _c19
+        for cf, cpt, crv in _c19.constructor_of(w, S.term_ty):
+            if cf == ctor_fn:
+                CT = w.terms(cf)
+                ctor_terms = {nm: WD.strip_names(CT.operand(op, cpt)) for nm, op in zip(crv["field_names"], crv["ops"])}
+    for fn in fns:
+        d = set()
+        preserved_pts = {}
+        preserved_fields = set()
+        # `*self = Terminal::new(.., self.f, ..)`: a field the constructor fills from the argument `self.f` keeps its value
+        for f2, pt, p, t in w.assign_sites({fn}, lambda p: p == ("arg1",)):
+            t = WD.strip_names(t)
+            def via_ctor(call_t, nm):
+                amap = {}
+                for i, a in enumerate(call_t[2]):
+                    if a[0] == "tuple":
+                        for j, el in enumerate(a[1]):
+                            amap[("load", ("arg%d" % (i + 1), str(j)))] = el
+                    amap[("load", ("arg%d" % (i + 1),))] = a
+                return nm in ctor_terms and WD.subst_term(ctor_terms[nm], amap) == ("load", ("arg1", nm))
+            if t[0] == "call" and t[1] == ctor_fn and ctor_terms:
+                for nm in ctor_terms:
+                    if via_ctor(t, nm):
+                        preserved_fields.add(nm)
+            elif t[0] == "adt" and t[1] == S.term_ty and len(t) >= 5:
+                # struct update: `*self = Terminal { f: self.f, ..Terminal::new(.., self.g, ..) }`
+                for nm, ft in zip(t[3], t[4]):
+                    if ft == ("load", ("arg1", nm)):
+                        preserved_fields.add(nm)
+                    elif ft[0] == "field" and ft[2] == nm and ft[1][0] == "call" and ft[1][1] == ctor_fn and via_ctor(ft[1], nm):
+                        preserved_fields.add(nm)
+        for f2, pt, p, t in w.assign_sites({fn}, lambda p: len(p) == 2 and p[0] == "arg1"):
+            if WD.strip_names(t) == ("load", p):
+                preserved_pts.setdefault(pt, set()).add(p[1])
+                preserved_fields.add(p[1])
+        for pt, ps in E.stmt_writes[fn].items():
+            for p in ps:
+                if p[0] != "arg1":
+                    continue
+                if len(p) == 1:
+                    d |= {f for f in fields if f not in preserved_fields}
+                elif p[1] in fields and p[1] not in preserved_pts.get(pt, ()):
+                    d.add(p[1])
+        for cs in E.sites[fn]:
+            if cs.local and cs.callee in fns:
+                continue
+            for p in cs.W:
+                if p[0] == "arg1" and len(p) >= 2 and p[1] in fields:
+                    d.add(p[1])
+                elif p[0] == "arg1" and len(p) == 1:
+                    d |= set(fields)
+        direct[fn] = d
+    changed = True
+    while changed:
+        changed = False
+        for fn in fns:
+            for cs in E.sites[fn]:
+                if cs.local and cs.callee in direct:
+                    recv = cs.arg_vals[0] if cs.arg_vals else set()
+                    if any(tuple(p)[:1] == ("arg1",) and len(p) == 1 for p in recv) or not cs.arg_vals:
+                        new = direct[cs.callee] - direct[fn]
+                        if new:
+                            direct[fn] |= new
+                            changed = True
+    out = {f: set() for f in fields}
+    for fn, d in direct.items():
+        for f in d:
+            out[f].add(fn)
+    return out
+
+
+def count_passthrough(ctx, w, S, R, rule, variants):
+    """The repetition count of a command reaches the primitive / loop / search exactly as `default(param)`: it is not
+    clamped, scaled or otherwise adjusted by the handler (the documented clamps live in the primitives)."""
+    from rules import c05
+    E = w.E
+    helper = c05.default_helper(w)
+    ctx.rule(rule, "the count of %s is handed on exactly as default(parameter): no handler-side clamp, scaling or adjustment" % "/".join(v.upper() for v in variants))
+    if not helper:
+        ctx.missing_anchor(rule, "default helper")
+        return
+
+    def is_count(t):
+        return t[0] == "call" and t[1] == helper and len(t[2]) >= 1 and t[2][0] == ("load", ("arg2",))
+
+    def bad_use(t, top=True):
+        """a node that computes with the count (other than wrapping it)"""
+        if not isinstance(t, tuple) or not t:
+            return None
+        if is_count(t):
+            return None
+        if isinstance(t[0], tuple):                 # a sequence of operand terms
+            for y in t:
+                r = bad_use(y, False) if isinstance(y, tuple) else None
+                if r is not None:
+                    return r
+            return None
+        contains = any(is_count(x) for x in _walk(t))
+        if not contains:
+            return None
+        if t[0] in ("adt", "tuple", "ref", "deref", "field", "downcast", "obj", "phi", "cast"):
+            for x in t:
+                if isinstance(x, tuple):
+                    r = bad_use(x, False)
+                    if r is not None:
+                        return r
+                    if x and isinstance(x[0], tuple):
+                        for y in x:
+                            r = bad_use(y, False) if isinstance(y, tuple) else None
+                            if r is not None:
+                                return r
+            return None
+        if t[0] == "call" and (t[1].endswith("into_iter") or t[1].endswith("Iterator>::next") or t[1].endswith("::next")):
+            for x in t[2]:
+                r = bad_use(x, False)
+                if r is not None:
+                    return r
+            return None
+        return t
+    n = 0
+    for v in variants:
+        for h in w.handler(v):
+            T = w.terms(h)
+            for cs in E.call_sites(h):
+                for a in cs.term["args"]:
+                    t = WD.strip_names(T.operand(a, cs.point))
+                    if not any(is_count(x) for x in _walk(t)):
+                        continue
+                    n += 1
+                    b = bad_use(t)
+                    ctx.check(b is None, rule, "%s:%s" % (v, site_key(w, h, cs.point)), "%s adjusts its count before use: %s (the count must be handed on as default(parameter); clamping belongs to the primitive)" %
+                              (h, w.tstr(h, b)[:100] if b is not None else ""), loc=w.site_loc(cs), sample={"handler": h, "use": w.tstr(h, t)[:80]})
+    ctx.floor(rule, max(1, len(variants) - 1), "count uses")
+
+
+def _walk(t):
+    if isinstance(t, tuple):
+        yield t
+        for x in t:
+            yield from _walk(x)
